@@ -33,8 +33,8 @@ func (q *QueryRangeController) QueryRange(w http.ResponseWriter, r *http.Request
 		return
 	}
 
-	start, err := getRequiredFloat(r, "start", "", nil)
-	end, err := getRequiredFloat(r, "end", "", err)
+	start, err := getRequiredNs(r, "start", "", nil)
+	end, err := getRequiredNs(r, "end", "", err)
 	step, err := getRequiredDuration(r, "step", "1", err)
 	direction := r.URL.Query().Get("direction")
 	//if direction == "" {
